@@ -224,6 +224,23 @@ class SpecEval:
             env2 = dict(env)
             env2["st"] = env["entry"]
             return self.ev(n.args[0], env2)
+        if f in self.ghosts.funcs and self.ghosts.funcs[f][1] is None:
+            # uninterpreted ghost: an argument that names an array is passed as the array itself
+            gargs = []
+            for a in n.args:
+                if isinstance(a, ast.Name) and a.id not in env["bound"]:
+                    st_ = env["st"]
+                    if a.id in st_.arrs:
+                        gargs.append(st_.arrs[a.id])
+                        continue
+                    v = st_.vars.get(a.id)
+                    if v is not None and v.k in ("ptr", "obj") and v.arr in st_.arrs:
+                        gargs.append(st_.arrs[v.arr])
+                        continue
+                gv = self.ev(a, env)
+                gargs.append(gv if z3.is_bool(gv) else self.int(gv))
+            fn = sym.uf("ghost_" + f, *([g.sort() for g in gargs] + [I]))
+            return fn(*gargs)
         args = [self.ev(a, env) for a in n.args]
         if f == "implies":
             return z3.Implies(self.bool(args[0]), self.bool(args[1]))
